@@ -169,7 +169,7 @@ pub fn run(ctx: &Ctx) {
          more pairs): e([b]P1,[a]P2) == e(P1,P2)^(ab mod N) with the library's own scalar multiplications and exponentiation, e(P1,P2) != 1, g^N == 1. Annex value of e(P1, Ppub-s). Non-trivial: a, b not both 1, or a Jacobian input.",
     );
     ctx.assume("reference pairing (harness/src/refimpl/sm9.rs) reproduces the GM/T 0044.5 Annex value of e(P1,Ppub-s) and all Annex signature/ciphertext/exchange values, and is bilinear on its own");
-    ctx.assume("the point at infinity is not a pairing argument in any caller and is not generated");
+    ctx.assume("the G2 point at infinity is not a pairing argument in any caller (user keys and master public keys are never O) and is not generated; the G1 point at infinity is (a caller can pass S = O or R = O) and must give the value 1");
 
     ctx.listed("annex_and_order", "e(P1, Ppub-s) for the Annex master key equals the published value; g has order N; e(P1,P2) != 1", || vec![0u8], |_| {
         let ks = crate::refimpl::field::big("000130E7 8459D785 45CB54C5 87E02CF4 80CE0B66 340F319F 348A1D5B 1F2DC5F4");
@@ -238,6 +238,23 @@ pub fn run(ctx: &Ctx) {
         vec![(0..6u64).map(|i| PairCase { a: Hex(expand_bytes(i ^ 0xc12a, 32)), b: Hex(expand_bytes(i ^ 0xc12b, 32)), zp: one.clone(), zq0: one.clone(), zq1: zero.clone() }).collect::<Vec<_>>()]
     }, |steps: &Vec<PairCase>| par(steps, check_exact));
     ctx.cold("cold_start_bilinearity", "the in-library bilinearity identity as the first library operations of a fresh process", || vec![Bilin { a: Hex(expand_bytes(0xc134, 32)), b: Hex(expand_bytes(0xc135, 32)) }], check_bilinear);
+
+    ctx.listed("g1_infinity_argument", "e(O, [a]P2) for the G1 point at infinity in three representations (Point::zero(), (l^2, l^3, 0), and [N-1]P1 + P1 computed by the library): bilinearity forces the value 1 (e([N]P, Q) = e(P, Q)^N); a caller reaches it with S = O in verify_sign or R = O in the key exchange", || vec![1u64, 2, 0xabcdef, 0x1234_5678_9abc_def1], |a| {
+        let q_ref = r9::p2_mul(&BigUint::from(*a));
+        let q_lib = lib_g2(&q_ref, &fp2_one());
+        let n1 = to_limbs(&(&pr.n - 1u32));
+        let infs: Vec<(&str, Point)> = vec![
+            ("Point::zero()", Point::zero()),
+            ("(l^2, l^3, 0)", lib_g1(&None, &BigUint::from(7u32))),
+            ("[N-1]P1 + P1", catch(|| Point::g_mul(&n1).point_add(&Point::g_mul(&[1, 0, 0, 0]))).map_err(|p| Fail { key: "entry=Point::point_add outcome=panic".into(), detail: p })?),
+        ];
+        for (what, o) in infs {
+            ensure!(o.is_zero(), "harness: infinity representation", "{} is not the point at infinity", what);
+            let got = catch(|| hk::pairing(&q_lib, &o)).map_err(|e| Fail { key: "entry=sm9_u256_pairing input=G1-infinity outcome=panic".into(), detail: format!("P = {} a={:x}: {}", what, a, e) })?;
+            ensure!(ref_f12(&got) == r9::f12_one(), "entry=sm9_u256_pairing input=G1-infinity outcome=wrong-value", "e({}, [{:x}]P2) = {} instead of 1", what, a, hex::encode(&ref_f12(&got).bytes()[..48]));
+        }
+        pass(true, "g1-infinity")
+    });
 
     ctx.listed("exact_edge_g1_points", "P a boundary point of G1 (x next to 0, N, p, 2^256-p, powers of two; Montgomery x with all-ones / zero limbs; y with a leading zero byte), affine and Jacobian, against Q = [a]P2", || {
         let mut v = Vec::new();
